@@ -305,7 +305,7 @@ func c13ServedMain(e *Env) (*res.Result, error) {
 		}
 		d.Servers = bf.Servers
 		cfg := inproc.Config{BasePath: bf.Flag, DoNotEdit: true}
-		cfg.SpecHandlerName = rapid.SampledFrom([]string{"openapi.yaml", "openapi.yaml", "spec.json", "openapi", "api-docs.yml", "docs/openapi.yaml", "v2/spec/api.json"}).Draw(t, "spec_handler_name")
+		cfg.SpecHandlerName = rapid.SampledFrom([]string{"openapi.yaml", "openapi.yaml", "spec.json", "openapi", "api-docs.yml", "docs/openapi.yaml", "v2/spec/api.json", ".openapi.yaml", ".well-known/openapi.json", "..spec", "openapi.yaml.", "a.b/c.d"}).Draw(t, "spec_handler_name")
 		ps := PkgSpec{Doc: d, Cfg: cfg, Meta: map[string]any{"baseform": bf.Name}}
 		switch rapid.IntRange(0, 2).Draw(t, "content_kind") {
 		case 0:
